@@ -31,11 +31,12 @@ def Globals.initial : Globals :=
     latest := ((Draft.ofTag? Generated.latestVersion).getD .d7).classDef }
 
 /-- `validates(version)(cls)`: register by version name and, when the metaschema has a (truthy)
-    id, by that id — overwriting what was there -/
+    id (`ID_OF`: none next to a `$ref` key), by that id — overwriting what was there -/
 def validates (env : Env) (version : Str) (c : ClassDef) (g : Globals) : Res Globals :=
   let g1 := { g with validators := (g.validators.filter (·.1 ≠ version)) ++ [(version, c)] }
   match c.metaSchema with
   | .obj kvs =>
+    if Json.hasKey (skey "$ref") kvs then .ok g1 else
     match Json.lookup c.cfg.idKey kvs with
     | some (.str u) =>
       if u.isEmpty then .ok g1 else
